@@ -61,30 +61,52 @@ Theorem C14_identity : forall h p e h' s,
 Proof. exact identity_all. Qed.
 Print Assumptions C14_identity.
 
-(* resolving a set of pipelines gives the same result - same heap, same pipeline object contents, same
-   error - for every order in which they are named *)
-Theorem C14_resolver_perm : forall h reg specs specs',
-  Permutation specs specs' -> NoDup specs -> resolve h reg specs = resolve h reg specs'.
+(* the resolver table maps identifiers (unrelated to the pipelines' `name`) to registered objects or
+   to callables / YAML files that yield a fresh pipeline per resolution.  For EVERY table, naming the
+   entries in any order combines the same entries in the same order: the stable ascending
+   (priority, identifier) order of the entries *)
+Theorem C14_resolver_entries_perm : forall (t : list (str * rent ppl)) specs specs',
+  Permutation specs specs' -> NoDup specs ->
+  resolve_order tab_nm ent_prio t specs = resolve_order tab_nm ent_prio t specs'.
+Proof. exact resolve_entries_perm. Qed.
+Print Assumptions C14_resolver_entries_perm.
+
+(* on tables of registered objects that is the identical result - same heap, same pipeline object
+   contents, same error - for every order in which they are named *)
+Theorem C14_resolver_perm : forall h c t specs specs', objs_only t ->
+  Permutation specs specs' -> NoDup specs -> resolve h c t specs = resolve h c t specs'.
 Proof. exact resolve_perm. Qed.
 Print Assumptions C14_resolver_perm.
 
-(* what that order is: a permutation of the named pipelines, ascending in (priority, name), and
+(* what that order is: a permutation of the named entries, ascending in (priority, identifier), and
    entries the order does not separate stay in argument order (stability) *)
-Theorem C14_resolver_order : forall reg specs l, resolve_all p_name reg specs = Some l ->
-  exists s, resolve_order p_name p_prio reg specs = Some (map fst s) /\ Permutation s l /\
-    StronglySorted (fun a b => key_leb (info_key p_prio a) (info_key p_prio b) = true) s /\
-    forall z, filter (eqv (info_leb p_prio) z) s = filter (eqv (info_leb p_prio) z) l.
-Proof. exact (resolve_order_spec p_name p_prio). Qed.
+Theorem C14_resolver_order : forall (t : list (str * rent ppl)) specs l, resolve_all tab_nm t specs = Some l ->
+  exists s, resolve_order tab_nm ent_prio t specs = Some (map fst s) /\ Permutation s l /\
+    StronglySorted (fun a b => key_leb (info_key ent_prio a) (info_key ent_prio b) = true) s /\
+    forall z, filter (eqv (info_leb ent_prio) z) s = filter (eqv (info_leb ent_prio) z) l.
+Proof. exact (resolve_order_spec tab_nm ent_prio). Qed.
 Print Assumptions C14_resolver_order.
 
 (* ... and the resolved pipeline is the concatenation in that order *)
-Theorem C14_resolver_concat : forall h reg specs l h' s,
-  wf_heap h -> (forall p, In p reg -> valid h p) ->
-  resolve_order p_name p_prio reg specs = Some l -> l <> [] -> resolve h reg specs = (h', Ok s) ->
-  p_items s = flat_map p_items l /\ p_post s = flat_map p_post l /\ p_fin s = flat_map p_fin l /\
-  (forall k, lookup k (h_vars h' (p_id s)) = vars_lookup k (map (fun p => h_vars h (p_id p)) l)).
+Theorem C14_resolver_concat : forall h c t specs l h' c' s,
+  wf_heap h -> objs_only t -> (forall e, In e t -> valid h (ent_ppl e)) ->
+  resolve_order tab_nm ent_prio t specs = Some l -> l <> [] -> resolve h c t specs = ((h', c'), Ok s) ->
+  p_items s = flat_map p_items (map ent_ppl l) /\ p_post s = flat_map p_post (map ent_ppl l) /\
+  p_fin s = flat_map p_fin (map ent_ppl l) /\
+  (forall k, lookup k (h_vars h' (p_id s)) = vars_lookup k (map (fun p => h_vars h (p_id p)) (map ent_ppl l))).
 Proof. exact resolve_flat. Qed.
 Print Assumptions C14_resolver_concat.
+
+(* tables with callables / YAML files (no callable with a memory): the pipelines that resolve()
+   sums - Model.Pipeline.resolve: psum over map fst (isort (info_leb p_prio) infos) - are, one by one
+   and in this order, the entries of the permutation-invariant (priority, identifier) order of
+   C14_resolver_entries_perm: the registered object itself, or a fresh pipeline with the content of
+   the callable's / file's definition *)
+Theorem C14_resolver_instances : forall h c t specs l hc infos, no_seq t ->
+  resolve_all tab_nm t specs = Some l -> minst_all h c l = (hc, Ok infos) ->
+  Forall2 inst_of (map fst (isort (info_leb ent_prio) l)) (map fst (isort (info_leb p_prio) infos)).
+Proof. exact resolve_instances. Qed.
+Print Assumptions C14_resolver_instances.
 
 (* FULL STATEMENT (false of the faithful model, see C14_reuse_refuted):
      forall h f p rules, snd (m_run h f p rules) = abs_run f (abs h p) rules
@@ -122,24 +144,26 @@ Print Assumptions C14_stage_order.
 (* histories.  FULL STATEMENT (false, see C14_history_refuted): the premise `snd (mexec ...) = true`
    dropped, i.e. every history of API calls (bracketings of +, resolver calls, backend
    initialisations, conversions with and without re-initialisation, on two backend instances sharing
-   the class-level pipelines, operands fresh or used) shows what the value-only specification of
+   the class-level pipelines, operands fresh or used; resolver table of registered objects `tn_objs`,
+   tables with callables / files are covered by the correspondence only) shows what the value-only specification of
    that history shows.  Proved part: the histories in which the initial objects are distinct and
    every conversion WITHOUT re-initialisation runs a pipeline that still owns its objects (the
    second component of mexec; conversions through Backend.convert() always qualify). *)
-Theorem C14_history_partial : forall f defs bkd outd rules prog h0 l,
+Theorem C14_history_partial : forall f defs tn bkd outd rules prog h0 l,
+  tn_objs tn ->
   mk_defs h_empty (defs ++ [bkd; outd]) = (h0, Ok l) ->
-  snd (mexec f defs bkd outd rules prog) = true ->
-  fst (mexec f defs bkd outd rules prog)
-  = aexec f (map adef defs) (fst (fst (adef bkd))) (fst (fst (adef outd))) rules prog.
+  snd (mexec f defs tn bkd outd rules prog) = true ->
+  fst (mexec f defs tn bkd outd rules prog)
+  = aexec f (map adef defs) tn (apipe_of bkd) (apipe_of outd) rules prog.
 Proof. exact history_sound. Qed.
 Print Assumptions C14_history_partial.
 
 Theorem C14_history_refuted :
-  exists f defs bkd outd rules prog l,
-    snd (mk_defs h_empty (defs ++ [bkd; outd])) = Ok l /\
-    snd (mexec f defs bkd outd rules prog) = false /\
-    fst (mexec f defs bkd outd rules prog)
-    <> aexec f (map adef defs) (fst (fst (adef bkd))) (fst (fst (adef outd))) rules prog.
+  exists f defs tn bkd outd rules prog l,
+    tn_objs tn /\ snd (mk_defs h_empty (defs ++ [bkd; outd])) = Ok l /\
+    snd (mexec f defs tn bkd outd rules prog) = false /\
+    fst (mexec f defs tn bkd outd rules prog)
+    <> aexec f (map adef defs) tn (apipe_of bkd) (apipe_of outd) rules prog.
 Proof. exact history_refuted. Qed.
 Print Assumptions C14_history_refuted.
 
@@ -150,6 +174,6 @@ Example C14_premises_inhabited :
 Proof. exact premises_inhabited. Qed.
 Example C14_history_premises_inhabited :
   exists l, snd (mk_defs h_empty ([w_defA; w_defE (Some [98])] ++ [w_defE None; w_defE None])) = Ok l /\
-  snd (mexec FState [w_defA; w_defE (Some [98])] (w_defE None) (w_defE None) w_rules w_prog_fresh) = true /\
-  exists r, fst (mexec FState [w_defA; w_defE (Some [98])] (w_defE None) (w_defE None) w_rules w_prog_fresh) = Ok r.
+  snd (mexec FState [w_defA; w_defE (Some [98])] [] (w_defE None) (w_defE None) w_rules w_prog_fresh) = true /\
+  exists r, fst (mexec FState [w_defA; w_defE (Some [98])] [] (w_defE None) (w_defE None) w_rules w_prog_fresh) = Ok r.
 Proof. exact history_inhabited. Qed.
